@@ -5,5 +5,5 @@ cd "$(dirname "$0")"
 export CARGO_NET_OFFLINE=true
 mkdir -p .build evidence replays
 (cd lean && lake build Spdc spdcmodel)
-(cd harness && RUSTFLAGS="--cfg spdcalc_verif" CARGO_TARGET_DIR=/verif/.build/target cargo build --release --offline)
+(cd harness && RUSTFLAGS="--cfg spdcalc_verif" CARGO_TARGET_DIR="$PWD/../.build/target" cargo build --release --offline)
 echo setup-done
